@@ -6,6 +6,7 @@ every path to the point).  Kinds:
   ('none', p)          p is None
   ('ub', i, L, k)      i + k <= len(L)
   ('lb', i, c)         i >= c
+  ('rub', x, L, k)     every element e of the iterable x: e + k <= len(L);   ('rlb', x, c)  every element e >= c
   ('inv', i, L)        0 <= i <= len(L)                (cursor invariant)
   ('lenge', L, n)      len(L) >= n
   ('eqlen', A, B)      len(A) == len(B)
@@ -30,15 +31,17 @@ from typing import FrozenSet, Iterable, Optional, Tuple
 
 State = FrozenSet[tuple]
 
-MINK = {"ub": 3, "lb": 2, "lenge": 2}  # position of the numeric component that meets by min
+MINK = {"ub": 3, "lb": 2, "lenge": 2, "rub": 3, "rlb": 2}  # position of the numeric component that meets by min
 
 
 def paths_of(f: tuple):
     k = f[0]
     if k in ("nn", "none", "desc", "listed", "reg", "known", "rulekey", "falsy", "isstr"):
         return (f[1],)
-    if k in ("ub",):
+    if k in ("ub", "rub"):
         return (f[1], f[2])
+    if k == "rlb":
+        return (f[1],)
     if k in ("lb", "eqc"):
         return (f[1],)
     if k in ("inv", "eqlen", "haskey", "member", "snap", "alias", "islen"):
@@ -108,6 +111,16 @@ def meet(a: State, b: State) -> State:
     for key, va in na.items():
         if key in nb:
             out.add(key + (min(va, nb[key]),))
+    # numeric bounds of a variable survive a join with a path on which the variable is None: they read "if it is a number,
+    # then ..." (a None index / operand is a TypeError, which the nullable-use rule reports on its own)
+    none_a = {f[1] for f in a if f[0] == "none"}
+    none_b = {f[1] for f in b if f[0] == "none"}
+    for f in a:
+        if f[0] in ("ub", "lb") and f[1] in none_b:
+            out.add(f)
+    for f in b:
+        if f[0] in ("ub", "lb") and f[1] in none_a:
+            out.add(f)
     # implication facts survive a branch on which the variable is falsy
     # element facts of a local list of tuples: an empty list satisfies all of them
     ea = {f[1] for f in a if f[0] == "elemall"}
